@@ -73,6 +73,10 @@ func (w *Worker) Mine(ctx context.Context, data []byte, targetScore float64) (ui
 	if !(float64(len(data)+nonceBytes)*targetScore > 1) {
 		targetZeros = 0
 	}
+	// the logarithm is subject to rounding: assure that the score as computed by Score reaches targetScore
+	for targetZeros <= consts.HashTrinarySize && math.Pow(consts.TrinaryRadix, float64(targetZeros))/float64(len(data)+nonceBytes) < targetScore {
+		targetZeros++
+	}
 
 	workerWidth := math.MaxUint64 / uint64(w.numWorkers)
 	for i := 0; i < w.numWorkers; i++ {
